@@ -336,9 +336,9 @@ type penv struct {
 	back    map[edge]int
 	defers  []*ssa.Defer
 	phiIn   map[*ssa.Phi]ssa.Value
-	rel     map[[2]ssa.Value]bool // known (in)equality between two non-constant values
-	notNil  map[ssa.Value]bool    // values known to differ from nil
-	vals    map[ssa.Value]ssa.Value // parameters of expanded callees -> argument; expanded single-result calls -> returned value
+	rel     map[[2]ssa.Value]bool     // known (in)equality between two non-constant values
+	notNil  map[ssa.Value]bool        // values known to differ from nil
+	vals    map[ssa.Value]ssa.Value   // parameters of expanded callees -> argument; expanded single-result calls -> returned value
 	tuples  map[*ssa.Call][]ssa.Value // expanded multi-result calls -> returned values
 }
 
@@ -671,6 +671,52 @@ func (en *enumerator) walk(fn *ssa.Function, b *ssa.BasicBlock, pred *ssa.BasicB
 			callee, args := en.calleeToInline(&x.Call)
 			if callee != nil && depth < en.cfg.MaxDepth {
 				cenv := env.clone()
+				// a new activation of the callee: forget what an earlier activation (previous loop
+				// iteration of the caller) established about the callee's own values
+				inCallee := func(v ssa.Value) bool {
+					if in, ok := v.(ssa.Instruction); ok {
+						return in.Parent() == callee
+					}
+					if p, ok := v.(*ssa.Parameter); ok {
+						return p.Parent() == callee
+					}
+					return false
+				}
+				for k := range cenv.consts {
+					if inCallee(k) {
+						delete(cenv.consts, k)
+					}
+				}
+				for k := range cenv.notNil {
+					if inCallee(k) {
+						delete(cenv.notNil, k)
+					}
+				}
+				for k := range cenv.rel {
+					if inCallee(k[0]) || inCallee(k[1]) {
+						delete(cenv.rel, k)
+					}
+				}
+				for k := range cenv.vals {
+					if inCallee(k) {
+						delete(cenv.vals, k)
+					}
+				}
+				for k := range cenv.phiIn {
+					if k.Parent() == callee {
+						delete(cenv.phiIn, k)
+					}
+				}
+				for k := range cenv.chosen {
+					if k.Parent() == callee {
+						delete(cenv.chosen, k)
+					}
+				}
+				for k := range cenv.exclude {
+					if k.Parent() == callee {
+						delete(cenv.exclude, k)
+					}
+				}
 				for pi, p := range callee.Params {
 					if pi < len(args) {
 						if c := en.evalConst(args[pi], env); c != nil {
